@@ -22,6 +22,7 @@ From NV Require Async.Lines Async.LinesProofs Async.WriteAll Async.WriteAllProof
 From NV Require Async.BcfFraming Async.BcfFramingProofs Trunc.Stream.
 From NV Require Async.Tab Async.TabProofs Io.TabRead Text.TextBase.
 From NV Require Async.PollSeek Async.PollSeekProofs.
+From NV Require Io.HeaderAdapter Async.HeaderReads Async.HeaderReadsProofs.
 From NV Require Cram.Itf8 Cram.Ltf8 Trunc.Cram CramIdx.AsyncQuery CramIdx.AsyncQueryProofs Async.CramFraming Async.CramFramingProofs.
 From NV Require Base.LE Bgzf.Crc32 Bgzf.Frame Bgzf.Writer Async.Writer Async.WriterProofs.
 From NV Require Io.Source Io.ReadExact Io.ReadExactProofs Io.Run Io.RunProofs Async.ReadExact Async.ReadExactProofs.
@@ -1073,3 +1074,26 @@ Example c16_async_csi_reader_example :
   /\ sync_csi_case payload = async_csi_case [] 1%nat payload.
 Proof. vm_compute. split; reflexivity. Qed.
 End IC.
+
+(* ---- the sam / vcf async header adapter read through AsyncRead (header_reader().read(&mut buf[..n]),
+   read_buf, copy with a bounded buffer; kind ahrd): poll_read copies min(n, window) bytes of the
+   window poll_fill_buf handed out.  For every prefix, data, poll script, capacity and list of caller
+   buffer sizes the calls deliver the header text of the sync adapter (C12's hdr_text, from a line
+   start) in order and without loss: each call returns a prefix of what is left, at most its buffer,
+   and a non-empty one unless its buffer is empty or the header text is exhausted -- a partial copy
+   of a line never ends the header.  (Where the source stands afterwards is compared at L2 only.) *)
+Module HR.
+Import NV.Io.Source NV.Io.HeaderAdapter NV.Async.HeaderReads.
+Theorem c16_async_header_reads_deliver : forall prefix cap codes sizes data, (1 <= cap)%nat ->
+  reads_deliver (hdr_text (Datatypes.S (length data)) prefix true data) sizes
+    (fst (async_header_reads_case prefix cap codes sizes data)).
+Proof. exact NV.Async.HeaderReadsProofs.async_header_reads_deliver. Qed.
+Print Assumptions c16_async_header_reads_deliver.
+
+(* non-vacuity: "@A\n@B\nr\n" through 1-byte transfers, capacity 4, seven 1-byte reads *)
+Example c16_async_header_reads_example :
+  async_header_reads_case 64%N 4%nat [2; 2; 2; 2; 2; 2; 2; 2]%nat [1; 1; 1; 1; 1; 1; 1]%nat
+    [64; 65; 10; 64; 66; 10; 114; 10]%N
+  = ([ROk [64%N]; ROk [65%N]; ROk [10%N]; ROk [64%N]; ROk [66%N]; ROk [10%N]; ROk []], 6%nat).
+Proof. vm_compute. reflexivity. Qed.
+End HR.
